@@ -62,6 +62,19 @@ CLAIMED = {
         "SQL layer never records write sets, so first-committer-wins is a statement about the coordinator only.",
    technique="Coq invariant proofs over operation lists + exhaustive small-history differential correspondence",
    design="7 (C04)"),
+ "C05": dict(
+   text="Props/C05.v: with the binding powers regenerated from the parser source, the Pratt parser is the exact inverse of the "
+        "minimal-parentheses printer for expression trees of any depth (C05_parse_print, parametric proof instantiated on the "
+        "regenerated table) and the table orders the operators as SQL documents (C05_sql_precedence, re-proved on every run); the "
+        "evaluator's AND/OR/NOT/BETWEEN/IN/IS NULL/LIKE forms are SQL three-valued logic for all inputs (C05_eval_3vl). Joins, "
+        "aggregates, GROUP BY, DISTINCT, ORDER BY, LIMIT/OFFSET and DML counts are decided by running the engine against RefDB "
+        "(Spec/RefDB.v, evaluated inside Coq) on generated populations and queries; 13 defects were found this way and fixed, four "
+        "remain as known findings (ORDER BY expression, ORDER BY/HAVING with aggregates, SELECT without FROM).",
+   note="Trusted: Coq kernel; translator for the binding-power table; RefDB is a hand-written specification (reviewed, not derived); "
+        "lexer, binder, Cascades search and Volcano operators are tied to the spec only by the correspondence stream; the Pratt "
+        "theorem covers the core fragment (literals, identifiers, infix operators, NOT, parentheses).",
+   technique="Coq proof (parser inverse theorem parametric in regenerated table; 3VL laws) + RefDB differential correspondence in vm_compute",
+   design="7 (C05)"),
 }
 NOT_YET = "not claimed yet: model and proofs under construction in this session (see DESIGN.md section 10, build order)"
 
